@@ -1074,7 +1074,7 @@ func init() {
 	core.Register(&core.Check{
 		ID:          "C09",
 		Level:       "fault_enumeration",
-		Rule:        "(1) cancellation instants enumerated exhaustively: for each program of a family the number N of context polls of a bounded run is measured, then the program is run on a fresh state for every k in 0..min(N,H) with a counting context that reports cancellation from the k-th poll on; oracle: Eval returns an error, at most |program tokens| further polls happen after the instant, the session is usable afterwards. (2) depth limits: MaxDepth values x 8 recursion/nesting shapes x every nesting count around the limit through repl.EvalOne: a monotone threshold, 'max depth' reported as a recovered panic, next input evaluates normally. (3) child processes with GOMEMLIMIT and an address-space limit: deeply nested source texts, default-depth recursions, every growth operator with magnitudes around the memory budget and overflow boundaries, doubling loops, non-terminating loops under a 1 s deadline: the child survives, returns within deadline + 5 s, stays usable, peak RSS <= 4 x limit + 64 MiB. Non-trivial = every case. (3b) recursions cancelled at a fixed poll count (deterministic depth): the unwinding may cost at most 2x the descent + 0.5 s of CPU; builtin/statement/index shapes nested around the recursive call with no depth limit (the evaluator's nesting bound must come before a Go stack overflow); showing and using 300k-deep values. (3c) memory-limit histories: every sequence of <=3 (thorough 4) actions over {SetMemoryLimit none/high/low, small and large growth operations} in one process: a large operation under the low limit is refused whatever ran before. (4) the grol command: -max-depth in every mode including the 2nd/3rd of several files.",
+		Rule:        "(1) cancellation instants enumerated exhaustively: for each program of a family the number N of context polls of a bounded run is measured, then the program is run on a fresh state for every k in 0..min(N,H) with a counting context that reports cancellation from the k-th poll on; oracle: Eval returns an error, at most |program tokens| further polls happen after the instant, the session is usable afterwards. (2) depth limits: MaxDepth values x 8 recursion/nesting shapes x every nesting count around the limit through repl.EvalOne: a monotone threshold, 'max depth' reported as a recovered panic, next input evaluates normally. (3) child processes with GOMEMLIMIT and an address-space limit: deeply nested source texts, default-depth recursions, every growth operator with magnitudes around the memory budget and overflow boundaries, doubling loops, non-terminating loops under a 1 s deadline: the child survives, returns within deadline + 5 s, stays usable, peak RSS <= 4 x limit + 64 MiB. Non-trivial = every case. (3b) recursions cancelled at a fixed poll count (deterministic depth): the unwinding may cost at most 2x the descent + 0.5 s of CPU; builtin/statement/index shapes nested around the recursive call with no depth limit (the evaluator's nesting bound must come before a Go stack overflow); showing and using 300k-deep values. (3c) memory-limit histories: every sequence of <=3 (thorough 4) actions over {SetMemoryLimit none/high/low, small and large growth operations} in one process: a large operation under the low limit is refused whatever ran before. (4) the grol command: -max-depth in every mode including the 2nd/3rd of several files. Round 7: the children read their standard input from a pipe holding data (read() returns, then the program loops / recurses / grows).",
 		Assume:      []string{"wall-clock and RSS oracles use generous constants (deadline + 5 s, 4 x limit + 64 MiB): they only detect gross violations", "cancellation is modelled by a counting context; real timers are only used in part (3)"},
 		QuickCap:    240 * time.Second,
 		ThoroughCap: 20 * time.Minute,
